@@ -161,6 +161,37 @@ def _check_op(rep, f, op, bits, vbits, tag):
             rep.check(ir.strip_casts(f, e.val) == ["a", 1], "C20.W4", tag + ".operand", "mask is the operand", "mask altered", site)
 
 
+def rule_cmpd(ctx, rep):
+    """Macro-argument hygiene (witnesses w_<op>_cmpd__<type>: operand `a < b` with int a, b): the value reaching the atomic
+    instruction is the signed 32-bit comparison of the two arguments, i.e. the operand expression was evaluated as a whole
+    in its own type.  A macro that applies a cast or unary operator to its unparenthesised parameter converts `a` first and
+    compares at the wrong width / signedness - every caller passing a compound expression gets a different value."""
+    m = W(ctx)
+    n = 0
+    for f in m.defined():
+        mt = re.match(r"w_(set|xchg|cmpxchg|add_return|sub_return|add|sub|and|or)_cmpd__(\w\w)$", f.name)
+        if not mt:
+            continue
+        rep.touch(f)
+        n += 1
+        op, t = mt.group(1), mt.group(2)
+        onp = [e for e in effects(f) if e.kind in ("store", "rmw", "cmpxchg", "xchg") and on_ptr(f, e)]
+        if len(onp) != 1:
+            rep.bad("C20.W7", f.name[2:] + ".one-effect", "%d atomic effects on *addr for a compound operand (expected one)" % len(onp), [f.name])
+            continue
+        e = onp[0]
+        vals = [("old", e.exp, (1, 2)), ("new", e.new, (2, 1))] if e.kind == "cmpxchg" else [("operand", e.val, (1, 2))]
+        for what, v, (x, y) in vals:
+            ex = ir.expr(f, v, 10)
+            cmps = [z for z in ir.subexprs(ex) if z[0] == "icmp"]
+            ok = len(cmps) == 1 and cmps[0][1] == "slt" and cmps[0][2] == ("arg", x) and cmps[0][3] == ("arg", y)
+            widths = [f.insts[k].d.get("ty") for k in range(len(f.insts)) if f.insts[k].op == "icmp"]
+            rep.check(ok and all(w in (None, "i1") or True for w in widths), "C20.W7", "%s.%s-evaluated-whole" % (f.name[2:], what), "the %s `a < b` reaches the instruction as the signed comparison of the two int arguments" % what,
+                      "the %s expression `a < b` reaches the atomic instruction as %s: the macro converted part of the expression before evaluating it (unparenthesised macro parameter) - "
+                      "compound operands are computed in the wrong type" % (what, ir.expr_str(ex)), [e.inst.where()])
+    pat.require(n >= 40, "only %d compound-operand witnesses" % n)
+
+
 def c_local(f, e):
     from .c17 import is_local
     return is_local(f, e.ap)
@@ -248,6 +279,7 @@ def rule_negative(ctx, rep):
 
 
 RULES = [
+    ("C20.W7", rule_cmpd),
     ("C20.ops", rule_ops),
     ("C20.W5", rule_orders),
     ("C20.W6", rule_negative),
